@@ -101,8 +101,8 @@ def strip_quals(q):
 
 def ctype(t):
     q = strip_quals(t.get("desugaredQualType", t["qualType"]))
-    if q == "_Bool":
-        return Ty("bool", name=q)
+    if q in ("_Bool", "bool"):          # clang prints _Bool as `bool` when <stdbool.h>'s macro is visible
+        return Ty("bool", name="_Bool")
     if q in INT_TYPES:
         return Ty("int", INT_TYPES[q][0], INT_TYPES[q][1], q)
     if q.endswith("*"):
@@ -201,9 +201,9 @@ class Tr:
         self.order = []               # parameter order bookkeeping: ("var", id) | ("field", id, field)
 
     # ---- variables
-    def declare(self, decl, allow_shadow=False):
+    def declare(self, decl):
         name, ty = decl["name"], ctype(decl["type"])
-        if name in self.names and not allow_shadow:
+        if name in self.names:
             raise Refuse("declaration of '%s' shadows another variable" % name)
         self.names.add(name)
         self.vars[decl["id"]] = (name, ty)
@@ -284,6 +284,8 @@ class Tr:
 
     def expr(self, e):
         k = e.get("kind")
+        if k == "_Given":             # an operand whose term is already known (left side of a compound assignment)
+            return "Z", e["term"]
         if k in ("ParenExpr", "ConstantExpr"):
             return self.expr(e["inner"][0])
         if k == "IntegerLiteral":
@@ -545,19 +547,6 @@ class Tr:
         raise Refuse("%s statement is outside the fragment" % k)
 
 
-# `_Given`: an operand whose term is already known (left side of a compound assignment)
-_orig_expr = Tr.expr
-
-
-def _expr(self, e):
-    if e.get("kind") == "_Given":
-        return "Z", e["term"]
-    return _orig_expr(self, e)
-
-
-Tr.expr = _expr
-
-
 def indent(term, n=2):
     out, depth = [], 0
     for line in term.split("\n"):
@@ -756,15 +745,6 @@ def sel_field_assign(field, ops, nth=0):
     return f
 
 
-def sel_rhs_of(var, pred):
-    def f(fn):
-        for n in walk(fn):
-            if stmt_assigns(n, var, ("=",)) and pred(strip_parens(n["inner"][1])):
-                return "expr", n["inner"][1]
-        raise Refuse("no assignment to '%s' of the expected shape" % var)
-    return f
-
-
 def sel_return_arg_of_call(callee, nth=0):
     def f(fn):
         for n in walk(fn):
@@ -915,10 +895,6 @@ def build_ring():
     return c
 
 
-def is_binop(op):
-    return lambda e: strip_casts(e).get("kind") == "BinaryOperator" and strip_casts(e).get("opcode") == op
-
-
 def build_digest():
     c = Component("Digest")
     u = unit_or_refuse(c, "src/digest.c")
@@ -1029,14 +1005,25 @@ def build_path():
     u = unit_or_refuse(c, "src/path.c")
     if u is not None:
         c.functions(u, ["is_dir_sep", "is_any_sep", "zix_is_empty_range"], "src/path.c, POSIX branch")
-        c.const("dir_sep", lambda: macro_char("src/path.c", "ZIX_DIR_SEP", u), "ZIX_DIR_SEP in this configuration")
+        c.const("dir_sep", lambda: macro_char("src/path.c", "ZIX_DIR_SEP"), "ZIX_DIR_SEP in this configuration")
     return c
 
 
-def macro_char(relpath, name, unit):
-    """value of a character-literal macro as this configuration sees it (compiled probe)"""
-    return probe(relpath, [name], link=["allocator.c", "string_view.c", "filesystem.c", "posix/filesystem_posix.c",
-                                        "errno_status.c", "system.c", "posix/system_posix.c"])[0]
+def macro_char(relpath, name):
+    """value of an integer-constant-expression macro as this configuration of the file sees it: clang evaluates
+    `enum { probe = (NAME) };` appended to the file (no linking needed)"""
+    src = os.path.join(REPO, relpath)
+    with tempfile.TemporaryDirectory(prefix="leafprobe") as d:
+        c = os.path.join(d, "probe.c")
+        with open(c, "w") as f:
+            f.write('#include "%s"\nenum { leaf_probe_value = (%s) };\n' % (src, name))
+        cmd = (["clang", "-std=gnu11", "-fsyntax-only", "-w"] + vlib.REPO_DEFS + ["-DNDEBUG", "-I" + os.path.join(REPO, "include"),
+               "-I" + os.path.join(REPO, "src"), "-Xclang", "-ast-dump=json", "-Xclang", "-ast-dump-filter=leaf_probe_value", c])
+        p = subprocess.run(cmd, capture_output=True, text=True, timeout=120)
+    m = re.search(r'"kind":\s*"ConstantExpr".*?"value":\s*"(-?\d+)"', p.stdout, re.S)
+    if p.returncode != 0 or not m:
+        raise Refuse("%s is not an integer constant expression in %s" % (name, relpath))
+    return int(m.group(1))
 
 
 def build_copy():
@@ -1080,13 +1067,20 @@ def write_if_changed(path, text):
             f.write(text)
 
 
+def outputs_digest():
+    h = hashlib.sha256()
+    for p in (LEAF_V, CONST_V):
+        h.update(open(p, "rb").read() if os.path.exists(p) else b"<missing>")
+    return h.hexdigest()
+
+
 def main():
     os.makedirs(GEN, exist_ok=True)
     key = input_digest()
     if "--force" not in sys.argv and os.path.exists(STAMP) and os.path.exists(LEAF_V) and os.path.exists(CONST_V):
         st = open(STAMP).read().split("\n")
-        if st and st[0] == key:                         # same sources, same tool: same output (and same refusals)
-            sys.stderr.write("\n".join(st[1:]))
+        if st and st[0] == key + " " + outputs_digest():    # same sources, same tool, outputs untouched: nothing to do
+            sys.stderr.write("\n".join(st[1:]) + ("\n" if len(st) > 1 else ""))
             return 2 if len(st) > 1 and st[1] else 0
     with ThreadPoolExecutor(max_workers=8) as ex:
         comps = list(ex.map(lambda b: b(), BUILDERS))
@@ -1106,7 +1100,7 @@ def main():
     write_if_changed(LEAF_V, "\n".join(leaf))
     write_if_changed(CONST_V, "\n".join(const))
     with open(STAMP, "w") as f:
-        f.write("\n".join([key] + msgs))
+        f.write("\n".join([key + " " + outputs_digest()] + msgs))
     if msgs:
         sys.stderr.write("\n".join(msgs) + "\n")
         return 2
